@@ -11,21 +11,33 @@ tier, seeds = "quick", ["0"]
 for a in sys.argv[1:]:
     if a.startswith("--tier="): tier = a.split("=")[1]
     if a.startswith("--seeds="): seeds = a.split("=")[1].split(",")
+adhoc = None
+extra = []
+for a in sys.argv[1:]:
+    # ad hoc mutation run: --patch=<diff> --prop=C13 [--only=<regex>]; nothing is recorded
+    if a.startswith("--patch="): adhoc = a.split("=", 1)[1]
+    if a.startswith("--prop="): adhoc_prop = a.split("=", 1)[1]
+    if a.startswith("--only="): extra = ["--only", a.split("=", 1)[1]]
+if adhoc:
+    names = ["adhoc-%d" % os.getpid()]
 if not names:
     names = sorted(d for d in os.listdir(os.path.join(V, "seeded")) if os.path.isdir(os.path.join(V, "seeded", d)))
 resf = os.path.join(V, "seeded", "RESULTS.json")
 res = json.load(open(resf)) if os.path.exists(resf) else {}
 for n in names:
     d = os.path.join(V, "seeded", n)
-    meta = json.load(open(os.path.join(d, "meta.json")))
-    prop = meta["property"]
+    if adhoc:
+        prop, patch = adhoc_prop, os.path.abspath(adhoc)
+    else:
+        meta = json.load(open(os.path.join(d, "meta.json")))
+        prop, patch = meta["property"], os.path.join(d, "patch.diff")
     wt, vc = "/tmp/seedrepo-" + n, "/tmp/vseed-" + n
     subprocess.run(["git", "-C", "/repo", "worktree", "remove", "--force", wt], capture_output=True)
     shutil.rmtree(vc, ignore_errors=True)
     subprocess.run(["git", "-C", "/repo", "worktree", "add", "-q", wt, "HEAD"], check=True)
     out = {"property": prop, "runs": []}
     try:
-        r = subprocess.run(["git", "-C", wt, "apply", os.path.join(d, "patch.diff")], capture_output=True, text=True)
+        r = subprocess.run(["git", "-C", wt, "apply", patch], capture_output=True, text=True)
         if r.returncode != 0:
             print(n, "patch does not apply:", r.stderr); out["error"] = "patch does not apply"; continue
         subprocess.run(["rsync", "-a", "--exclude", ".build", "--exclude", ".git", "--exclude", "replays", "--exclude", "evidence", V + "/", vc + "/"], check=True)
@@ -34,7 +46,7 @@ for n in names:
         for s in seeds:
             t0 = time.time()
             env["VERIF_SEED"] = s
-            p = subprocess.run(["./check", prop, "--tier", tier], cwd=vc, env=env, capture_output=True, text=True)
+            p = subprocess.run(["./check", prop, "--tier", tier] + extra, cwd=vc, env=env, capture_output=True, text=True)
             viol = [l for l in p.stdout.splitlines() if l.startswith("VIOLATION")]
             fps = sorted(set(l.strip().split(" test=")[0] for l in p.stdout.splitlines() if l.strip().startswith("fingerprint=")))
             out["runs"].append({"seed": s, "exit": p.returncode, "seconds": round(time.time() - t0), "violations": len(viol), "fingerprints": fps[:5]})
@@ -47,5 +59,10 @@ for n in names:
         subprocess.run(["git", "-C", "/repo", "worktree", "remove", "--force", wt], capture_output=True)
         shutil.rmtree(vc, ignore_errors=True)
     out["detected"] = any(r["exit"] == 1 for r in out["runs"])
+    if adhoc:
+        print("adhoc", prop, "detected" if out["detected"] else "MISSED")
+        continue
+    # merge with the file as it is now (several runners may be active)
+    res = json.load(open(resf)) if os.path.exists(resf) else {}
     res[n] = out
     json.dump(res, open(resf, "w"), indent=1)
